@@ -83,8 +83,16 @@ Definition block_type_params (b : term) : list string :=
   | _ => []
   end.
 
+(* `Sized`, also when named through a path (`core::marker::Sized`, `::std::marker::Sized`) *)
 Definition is_sized_path (p : term) : bool :=
-  term_eqb p (mk_path_ident "Sized").
+  match p with
+  | Node lp segs =>
+      is_kind "Path" lp &&
+      match split_last segs with
+      | Some (_, Node ls [Node la []]) => is_kind "Seg" ls && String.eqb (ld ls) "Sized" && is_kind "ANone" la
+      | _ => false
+      end
+  end.
 
 Definition relaxed (bs : list bound) (p : string) : bool :=
   existsb (fun b => b_maybe b && is_sized_path (b_path b) && term_eqb (b_ty b) (mk_ty_param p)) bs.
